@@ -560,7 +560,10 @@ def cases(draw, cells):
     lines = draw(G.instance_lines(v, m, tree, R.full(R.DEFAULT_EC), conforming=True, p_opt=draw(st.sampled_from([1, 2, 3]))))
     eligible = G.eligible(v, m, tree)
     route = draw(st.sampled_from(['api', 'parse', 'value', 'refarg', 'parse-flat'] if eligible else ['api', 'api', 'refarg', 'parse-flat']))
-    return {'kind': draw(st.sampled_from(KINDS)), 'v': v, 'm': m, 'tree': tree, 'lines': lines, 'route': route,
+    kind = draw(st.sampled_from(KINDS))
+    if route == 'parse-flat':
+        kind = 'datatype'           # (the only edit this route judges)
+    return {'kind': kind, 'v': v, 'm': m, 'tree': tree, 'lines': lines, 'route': route,
             'level': draw(st.sampled_from([TOL, TOL, STRICT])), 'pick': draw(st.integers(0, 5000))}
 
 
